@@ -29,15 +29,16 @@ var monKey monKeyT
 
 // CallMon observes one entry-point call through the verif hooks.
 type CallMon struct {
-	Steps      int      // evaluation steps (H1 events)
-	Polls      int      // ctx.Done() calls
-	Faults     []string // hook invariant failures
-	CancelAt   int      // flip at the entry of step k (k>=1); 0: already done; <0: never
-	Cause      error
-	cancelled  bool
-	StepsAfter int // steps entered after the flip (the flipping step included)
-	Calls      int // H2 call-start events
-	YieldEvery int // C19: Gosched every n steps (0 = never)
+	Steps       int      // evaluation steps (H1 events)
+	Polls       int      // ctx.Done() calls
+	Faults      []string // hook invariant failures
+	CancelAt    int      // flip at the entry of step k (k>=1); 0: already done; <0: never
+	Cause       error
+	cancelled   bool
+	StepsAfter  int // steps entered after the flip (the flipping step included)
+	Calls       int // H2 call-start events
+	YieldEvery  int // C19: Gosched every n steps (0 = never)
+	cancelCause context.CancelCauseFunc
 }
 
 // MCtx is a context carrying a CallMon; its Done/Err are driven by the
@@ -81,10 +82,28 @@ func (m *CallMon) Ctx(parent context.Context) context.Context {
 	if parent == nil {
 		parent = context.Background()
 	}
+	if m.CancelAt >= 0 {
+		// The parent carries a caller-supplied cancellation cause, as a
+		// worker pool using context.WithCancelCause would: context.Cause(ctx)
+		// then differs from ctx.Err() - and even wraps exec.ErrVerbose. The
+		// error a cancelled execution returns must be built from ctx.Err().
+		parent, m.cancelCause = context.WithCancelCause(parent)
+	}
 	if m.CancelAt == 0 {
-		m.cancelled = true
+		m.flip()
 	}
 	return &MCtx{Context: parent, M: m}
+}
+
+// HostileCause is what context.Cause reports for a monitored context after
+// its cancellation.
+var HostileCause = fmt.Errorf("%w: a sibling worker failed (cause supplied by the caller)", exec.ErrVerbose)
+
+func (m *CallMon) flip() {
+	m.cancelled = true
+	if m.cancelCause != nil {
+		m.cancelCause(HostileCause)
+	}
 }
 
 func monOf(ctx context.Context) *CallMon {
@@ -198,7 +217,7 @@ func InstallHooks() {
 		if m := monOf(ctx); m != nil {
 			m.Steps++
 			if m.CancelAt > 0 && m.Steps == m.CancelAt {
-				m.cancelled = true
+				m.flip()
 			}
 			if m.cancelled {
 				m.StepsAfter++
